@@ -62,6 +62,9 @@ def run(ctx):
         for j, ev in enumerate([fmt.roundtrip_event(api.Synth(mm96), spec, w=True), fmt.clone_event(mm96, spec)]):
             traces.append({"id": "MetaModule-udc%d#%d.%d" % (nud, k, j), "events": [ev]})
             ctx.count_case(("udc", nud, k, j), nontrivial=True)
+    for tr in fmt.boundary_traces(spec, kinds=("synth", "project")):      # deterministic boundary values
+        traces.append(tr)
+        ctx.count_case((tr["id"],), nontrivial=True)
     # a synth without a module refuses to serialize
     buf = []
     class Sink:
